@@ -67,6 +67,14 @@ pub fn damage_plan(g: &mut G, mut plan: BodyPlan) -> Damaged {
             plan.nsegs = segs.len();
             plan.end = if dmg == Damage::CutFin { End::Fin } else { End::Rst };
             plan.script = Script::from_wire(&wire[..k], &segs, plan.end);
+            // (no draw) the peer is silent for longer than the read timeout before it closes or resets: the caller
+            // sees a timeout first, reads again and meets the end of the connection - no more complete than before
+            if (k + plan.payload.len()) % 4 == 1 && k >= head_len {
+                plan.read_timeout_ms = [50u64, 1000][k % 2];
+                let n = plan.script.acts.len();
+                plan.script.wait_before(n - 1, (plan.read_timeout_ms + 1 + (k % 40) as u64) * NS_PER_MS);
+                g.probe("read-timeout-then-the-connection-ends");
+            }
             plan.cut_at = Some(k);
             plan.damage = format!("{:?}:at={}", dmg, k);
             g.probe(if k < head_len { "cut-in-head" } else { "cut-in-body" });
